@@ -116,11 +116,27 @@ type OblResult struct {
 	ReplayCmd string `json:"replay_cmd,omitempty"`
 }
 
-func discharge(o *Obligation, timeout time.Duration) (r OblResult) {
+func discharge(o *Obligation, timeout time.Duration) OblResult {
+	return discharge0(o, timeout)
+}
+
+func discharge0(o *Obligation, timeout time.Duration) (r OblResult) {
 	r = OblResult{Name: o.Name, Kind: o.Kind, Func: o.Func, Detail: o.Detail, Pos: o.Pos}
 	t0 := time.Now()
 	defer func() { r.Time = time.Since(t0).Seconds() }()
 	if o.Kind == "cover" {
+		if memo != nil {
+			key := obligationKey(o)
+			if be, ok := memo.get(key); ok {
+				r.Verdict, r.Backend = "proved", "memo:"+be
+				return r
+			}
+			defer func() {
+				if r.Verdict == "proved" {
+					memo.put(key, r.Backend)
+				}
+			}()
+		}
 		sr := Solve(&Query{Facts: o.Facts, Goal: nil, Axioms: o.Axioms}, 10*time.Second, false, nil)
 		if sr.Verdict == "unsat" {
 			r.Verdict, r.Backend, r.Info = "failed", sr.Solver, "the assumptions are contradictory: every proof about this function instance would be vacuous"
@@ -200,6 +216,27 @@ func discharge(o *Obligation, timeout time.Duration) (r OblResult) {
 				fmt.Fprintf(os.Stderr, "ginst goal: %s\n", o.Goal.str(2))
 			}
 		}
+	}
+	// instances of the quantified assumptions for the ground terms at hand (quant.go)
+	if o.Goal != nil {
+		if inst := instantiateQuantifiers(o.Facts, o.Goal); len(inst) > 0 {
+			o = &Obligation{Name: o.Name, Kind: o.Kind, Func: o.Func, Facts: append(append([]*Term(nil), o.Facts...), inst...), Goal: o.Goal, Detail: o.Detail, Pos: o.Pos, Uses: o.Uses, Axioms: o.Axioms, Alg: o.Alg}
+			r.Info += fmt.Sprintf("%d instances of quantified assumptions; ", len(inst))
+		}
+	}
+	// solver stage: consult the verdict memo first (memo.go)
+	if memo != nil {
+		key := obligationKey(o)
+		if be, ok := memo.get(key); ok {
+			r.Verdict, r.Backend = "proved", "memo:"+be
+			r.Info = "query " + key[:16] + " (identical up to renaming) was discharged before by " + be
+			return r
+		}
+		defer func() {
+			if r.Verdict == "proved" {
+				memo.put(key, r.Backend)
+			}
+		}()
 	}
 	// quantified axioms slow every query down and are rarely needed: try without them first
 	if qf := quantifierFree(o.Facts); len(qf) < len(o.Facts) {
@@ -362,6 +399,9 @@ func cmdVerify(args []string) {
 	if !ok {
 		fmt.Fprintln(os.Stderr, "unknown config")
 		os.Exit(2)
+	}
+	if os.Getenv("GOVC_MEMO") != "" {
+		memoOpen("/verif")
 	}
 	t0 := time.Now()
 	en, err := loadEngine(*repo, cfg, *cdir)
